@@ -316,6 +316,10 @@ Inductive sink :=
 | SkErrorText   (* reaches only the text of an exception / warning, no generated file *)
 | SkInput       (* ambient input that the property holds fixed (cwd) or excludes (timestamp comment) *)
 | SkPureText    (* a formatter that is a function of its text argument alone (black, autoflake; isort without source paths) *)
+| SkConstant    (* interpreter-lifetime container / shared AST node that no generation mutates (runtime fingerprint
+                   of the module state before/after every generation of the cross-project sequences) *)
+| SkCarried     (* interpreter-lifetime state that a generation writes and a later one reads (a cache, a memo, a
+                   mutated module-level container).  No row may have it. *)
 | SkFsSections  (* isort with source paths (the default configuration): section placement consults the filesystem
                    below cwd.  No row may have it. *).
 
@@ -330,6 +334,7 @@ Definition sink_name (k : sink) : string :=
   | SkNone => "none" | SkSorted => "sorted" | SkMember => "member" | SkIsort => "isort"
   | SkRaw => "raw" | SkErrorText => "errortext" | SkInput => "input"
   | SkPureText => "puretext" | SkFsSections => "fs-sections"
+  | SkConstant => "constant" | SkCarried => "carried"
   end.
 
 (* what an observer of the emitted text can learn from one iteration [xs] of the set, per sink;
@@ -345,6 +350,8 @@ Definition observe (k : sink) (xs : list string) (probe : string) : list string 
   | SkInput => []
   | SkPureText => []
   | SkFsSections => []
+  | SkConstant => []
+  | SkCarried => []
   end.
 (* sinks whose observation can depend on the iteration order *)
 Definition order_sensitive (k : sink) : bool :=
@@ -357,6 +364,16 @@ Definition observe_env (k : sink) (stdlib : list string) (env : ienv) (imps : li
   | SkFsSections => layout_default stdlib env imps
   | SkPureText => layout stdlib env imps
   | _ => []
+  end.
+
+(* sinks through which one generation can influence a later one of the same interpreter, and what the later
+   one observes of the history: with SkConstant the state it finds is the initial one, with SkCarried it is
+   whatever the earlier generations left *)
+Definition history_sensitive (k : sink) : bool := match k with SkCarried => true | _ => false end.
+Definition observe_history {St : Type} (k : sink) (initial : St) (step : St -> St) (n_earlier : nat) : St :=
+  match k with
+  | SkCarried => Nat.iter n_earlier step initial
+  | _ => initial
   end.
 
 Definition cg := "client_generators/".
@@ -483,6 +500,15 @@ Definition site_table : list site := [
     "isort.code(code_with_formatted_strings, config=ISORT_CONFIG)" SkPureText "since f6e5e03";
   St "contrib/extract_operations.py" "ExtractOperationsPlugin._module_to_str" "formatter"
     "format_str(isort.code(code_with_formatted_strings, config=ISORT_CONFIG), mode=Mode())" SkPureText "black";
+  St "client_generators/constants.py" "<module>" "state:module" "BASE_MODEL_IMPORT = ast" SkConstant "";
+  St "client_generators/constants.py" "<module>" "state:module" "GRAPHQL_CLIENT_EXCEPTIONS_NAMES = list" SkConstant "";
+  St "client_generators/constants.py" "<module>" "state:module" "INPUT_SCALARS_MAP = dict" SkConstant "";
+  St "client_generators/constants.py" "<module>" "state:module" "SIMPLE_TYPE_MAP = dict" SkConstant "";
+  St "client_generators/constants.py" "<module>" "state:module" "UNSET_IMPORT = ast" SkConstant
+    "shared import node: ClientForwardRefsPlugin copies it since be644af";
+  St "client_generators/constants.py" "<module>" "state:module" "UPLOAD_IMPORT = ast" SkConstant "";
+  St "graphql_schema_generators/constants.py" "<module>" "state:module" "STANDARD_SCALARS = dict" SkConstant "";
+  St "utils.py" "<module>" "state:module" "PYDANTIC_RESERVED_FIELD_NAMES = list" SkConstant "";
   St "utils.py" "process_name" "construct" "set(name)" SkNone "";
   St "utils.py" "process_name" "construct" "{'_'}" SkNone "";
   St "utils.py" "process_name" "eq" "set(name)" SkMember "";
@@ -548,7 +574,7 @@ Definition run_nondet (e : sexp) : sexp :=
       | _, _ => sErr "procstate" end
   | L [A "sites"] =>
       L (map (fun s => L [A (s_file s); A (s_fn s); A (s_ctx s); A (s_expr s); A (sink_name (s_sink s));
-                          sB (order_sensitive (s_sink s) || env_sensitive (s_sink s)); A (s_note s)]) site_table)
+                          sB (order_sensitive (s_sink s) || env_sensitive (s_sink s) || history_sensitive (s_sink s)); A (s_note s)]) site_table)
   | L [A "layout"; sl; cwd; A target; rg; early; imps] =>
       match dStrs sl, dStrs cwd, dB rg, dStrs early, dList (dPair dNat dStr) imps with
       | Some stdlib, Some c, Some regen, Some ea, Some is =>
